@@ -292,6 +292,9 @@ async fn episode(p: &EpParams) -> EpReport {
                 for tag in &s.expect {
                     if !s.seen_by_pull.contains(tag) {
                         rep.viol("C14", "C14:pull-subscription-lost-message", format!("pull-only subscription {} never got {} through Pull (steps {:?})", n, tag, steps));
+                        // seen from C01: a message published to a live subscription and acknowledged by
+                        // none of its consumers was never delivered to them
+                        rep.viol("C01", "C01:unacked-message-never-delivered:pull-subscription-beside-push", format!("{} was published to {} {} s ago, no consumer of the subscription has acknowledged it, and Pull does not return it (steps {:?})", tag, n, 3 * INTERVAL_S, steps));
                     }
                 }
                 rep.inc("pull_only_read_back");
